@@ -5,7 +5,7 @@ cd /repo || exit 3
 if ! git diff --quiet; then echo "/repo has uncommitted changes"; exit 3; fi
 git apply "$P" 2>/dev/null || git apply -3 "$P" || { echo "patch does not apply"; git reset -q --hard HEAD; exit 3; }
 ( cd /verif && VERIF_EVIDENCE_DIR=/tmp/mut-evidence ./check "$ID" "$TIER" > /tmp/mut.out 2>&1 ); rc=$?
-git -C /repo checkout -- . ; git -C /repo status --short | grep -v '^??' 
+git -C /repo reset -q HEAD 2>/dev/null; git -C /repo checkout -- . ; git -C /repo status --short | grep -v '^??' 
 grep -E "^VIOLATION|violation \[" /tmp/mut.out | head -4
 tail -1 /tmp/mut.out
 echo "exit=$rc"
